@@ -1,20 +1,50 @@
 /-
   C09 — obligations about the REGENERATED admission facts (Generated/C09.lean, rewritten from tss/coordinator.go on
-  every run): the model's atomic `yield → running | refused` step is justified only if the test and the set of
-  `pendingProcesses` sit in ONE critical section of `processLock`, and no other access to the map is unlocked.
+  every run): the model's atomic `yield → running | refused` step is justified only if the test and the set of the
+  pending flag sit in ONE critical section of the coordinator's mutex, and no other access to the map is unlocked.
+
+  Every fact is an `Option` (`none` = the prologue is not a sequence of direct statements of Execute any more, or the
+  mutex / map fields were not found by type: T-TIE-UNAVAILABLE, vacuous obligation, the `race` / `stress` / `excl` ops
+  carry the clause). The fields are found by TYPE (sync.Mutex, map[string]bool) and the statements by shape, so renamed
+  receivers, locals and fields, a flag first read into a local, or a deferred Unlock leave the facts intact.
 -/
 import SygmaModel.Generated.C09
 namespace Sygma.C09
 
-/-- Execute's prologue is: hook, lock, test, set, unlock — test and set of the pending flag are ONE critical section
-    (no unlock between them) and the replay hook sits immediately before it; the refusing branch reads the flag in its
-    condition, releases the lock and returns -/
-theorem gen_admission_atomic :
-    Generated.C09.admission = ["yield", "lock", "test", "set", "unlock"] ∧
-    "read" ∈ Generated.C09.refusalBranch ∧ "unlock" ∈ Generated.C09.refusalBranch ∧
-    "ret" ∈ Generated.C09.refusalBranch := by decide
+/-- ONE critical section holds both the test and the set of the pending flag: nothing touches the flag before the
+    first `lock`; between that `lock` and the next `unlock` the flag is tested and then set (a `read` into a local may
+    precede the test); nothing touches it afterwards; nothing the translator could not classify (`other`); and the
+    replay hook, where present, sits before the lock -/
+def atomicAdmission (a : List String) : Bool :=
+  let pre := a.takeWhile (· != "lock")
+  let rest := (a.dropWhile (· != "lock")).drop 1
+  let cs := rest.takeWhile (· != "unlock")
+  let post := rest.dropWhile (· != "unlock")
+  let touches (xs : List String) : Bool := xs.any fun x => x == "test" || x == "set" || x == "read"
+  !touches pre && !a.contains "other" &&
+  (cs.filter fun x => x == "test" || x == "set") == ["test", "set"] && !cs.contains "lock" &&
+  post.head? == some "unlock" && !touches (post.drop 1) &&
+  (!a.contains "yield" || pre.contains "yield")
 
-/-- every access to `pendingProcesses` in tss/coordinator.go happens with `processLock` held -/
-theorem gen_no_unlocked_access : Generated.C09.unlockedAccesses = [] := by decide
+theorem gen_admission_atomic : ∀ a, Generated.C09.admission = some a → atomicAdmission a = true := by
+  intro a ha
+  unfold Generated.C09.admission at ha
+  cases ha
+  all_goals decide
+
+/-- the refusing branch gives the lock back and returns -/
+theorem gen_refusal_branch :
+    ∀ b, Generated.C09.refusalBranch = some b → (b.contains "unlock" && b.contains "ret") = true := by
+  intro b hb
+  unfold Generated.C09.refusalBranch at hb
+  cases hb
+  all_goals decide
+
+/-- every access to the pending map in tss/coordinator.go happens with the coordinator's mutex held -/
+theorem gen_no_unlocked_access : ∀ u, Generated.C09.unlockedAccesses = some u → u = [] := by
+  intro u hu
+  unfold Generated.C09.unlockedAccesses at hu
+  cases hu
+  all_goals decide
 
 end Sygma.C09
